@@ -103,7 +103,7 @@ def lazy(sym, name, N, nsym):
                     petl.convertall(v0, str)
                     petl.fieldnames(v0)
             check(src.pulls <= max(src.iters, 1) * look, name + ': consulting the header of the view read data rows', src.pulls, look)
-            src.pulls = 0
+            src.reset()        # the bound below counts only the iterators created by the consumer
             views = _views(res, kind)
             members = opts.get('members', list(range(len(views))))
             idx = members[sym.choice('member', len(members))]
